@@ -35,7 +35,7 @@ FRESH_METHODS = {"clone", "new_tensor", "new_zeros", "new_ones", "new_empty", "n
                  "remainder", "atan2", "acos", "asin", "atan", "cross", "outer", "trace", "addmm", "lerp", "erf", "logsumexp",
                  "unique", "bincount", "histc", "median", "isnan", "isinf", "isfinite", "nan_to_num", "fill_diagonal", "tril", "triu",
                  "sub_", "from_grid", "from_arg", "from_align_corners"}
-BITS = 6
+BITS = 4
 # module-level torch / numpy functions whose result may share storage with an argument
 TORCH_ALIAS_FUNCS = {"as_tensor", "asarray", "from_numpy", "reshape", "squeeze", "unsqueeze", "transpose", "permute", "flatten", "narrow",
                      "select", "view_as_real", "view_as_complex", "movedim", "moveaxis", "swapaxes", "swapdims", "atleast_1d", "atleast_2d",
